@@ -386,3 +386,182 @@ def run_property(ctx, profile, n, projection, tag_prefixes, crash_is_violation=T
         hid = sorted(traces)[0]
         ctx.coverage["samples"].append({"history_id": hid, "trace_head": traces[hid][:14]})
     return dict(ok_build=True, mismatches=n_mis, pred_failures=n_pred, crashes=len(crashes))
+
+
+# ------------------------------------------------------------------ C07: metamorphic inertness (twin runs)
+import re as _re
+
+_UUID = _re.compile(rb"[0-9a-f]{8}-[0-9a-f]{4}-[0-9a-f]{4}-[0-9a-f]{4}-[0-9a-f]{12}")
+
+
+def _canon_tok(tok, table):
+    """Replaces every uuid inside a hex-encoded token by a placeholder numbered by first occurrence."""
+    if len(tok) < 72 or len(tok) % 2 or not _re.fullmatch(r"[0-9a-f]+", tok):
+        return tok
+    try:
+        raw = bytes.fromhex(tok)
+    except ValueError:
+        return tok
+
+    def sub(m):
+        u = m.group(0)
+        if u not in table:
+            table[u] = b"<U%d>" % len(table)
+        return table[u]
+    return _UUID.sub(sub, raw).decode("latin1")
+
+
+def parse_trace_events(lines):
+    """-> [(event line tokens, [output lines])] of one history (lines start at 'H ...')."""
+    evs = []
+    for l in lines:
+        if l.startswith("E "):
+            evs.append([l[2:], []])
+        elif l.startswith("O ") and evs:
+            evs[-1][1].append(l[2:])
+    return evs
+
+
+def _canon_probe_line(f):
+    """Go map iteration order is unspecified: sort the sessions of a file line, the holds of a listing, the locks of a table."""
+    try:
+        if f[0] == "listing":
+            n = int(f[1]); tr = [tuple(f[2 + 3 * i: 5 + 3 * i]) for i in range(n)]
+            return "listing %d %s" % (n, " ".join(" ".join(t) for t in sorted(tr)))
+        if f[0] == "file" and f[1] != "none":
+            n = int(f[1]); i = 2; sess = []
+            for _ in range(n):
+                sid, cnt = f[i], int(f[i + 1]); i += 2
+                ent = [tuple(f[i + 3 * j: i + 3 * j + 3]) for j in range(cnt)]; i += 3 * cnt
+                sess.append((sid, tuple(sorted(ent))))
+            return "file %d %s" % (n, " ".join("%s %d %s" % (sd, len(e), " ".join(" ".join(t) for t in e)) for sd, e in sorted(sess)))
+        if f[0] == "table":
+            n = int(f[1]); i = 2; locks = []
+            for _ in range(n):
+                name, size, last, nk = f[i], f[i + 1], f[i + 2], int(f[i + 3]); i += 4
+                locks.append((name, size, last, tuple(f[i:i + nk]))); i += nk
+            return "table %d %s" % (n, " ".join("%s %s %s %d %s" % (a, b_, c, len(k), " ".join(k)) for a, b_, c, k in sorted(locks)))
+    except (ValueError, IndexError):
+        pass
+    return " ".join(f)
+
+
+def canon_events(evs):
+    table = {}
+    wids = {}      # ids of parked calls are event indexes: rename by first occurrence
+    out = []
+    for e, os_ in evs:
+        et = [_canon_tok(t, table) for t in e.split()]
+        if et and et[0] in ("lock", "cancel") and len(et) > 1:
+            et[1] = wids.setdefault(et[1], "W%d" % len(wids))
+        co = []
+        for o in os_:
+            ot = [_canon_tok(t, table) for t in o.split()]
+            if ot and ot[0] == "w" and len(ot) > 1:
+                ot[1] = wids.setdefault(ot[1], "W%d" % len(wids))
+            co.append(_canon_probe_line(ot))
+        out.append((" ".join(et), sorted(co)))
+    return out
+
+
+def _failed_at_once(eline, olines):
+    """An acquisition or renew request that was answered with an error at once (it never parked)."""
+    op = eline.split()[0]
+    if op not in ("try", "lock", "ren"):
+        return False
+    rs = [o for o in olines if o.startswith("r ")]
+    if len(rs) != 1:
+        return False
+    f = rs[0].split()
+    # "r lock <bit> <key> <err>"; a parked call answers "r blocked"
+    return len(f) >= 5 and f[1] == "lock" and f[2] == "0" and f[-1] != "~"
+
+
+def twin_stage(ctx, profile, n, seed_offset=7, max_twins=80):
+    """For generated histories that contain requests which failed at once: re-execute the history WITHOUT those requests and
+    compare every other observation (keys renamed by first occurrence). The property says a failed request changes nothing, so
+    nothing observable later may depend on its presence. A difference is a failing real input for C07."""
+    tie = ctx.coverage["ties"].setdefault("T1-twin", {})
+    b = build(ctx)
+    if not b["ok"]:
+        tie["build"] = "failed"
+        return
+    g = run_generated(ctx, b, profile, n, ctx.seed + seed_offset)
+    cands = []
+    for d in g["dirs"]:
+        tr, hp = d / "trace.txt", d / "histories.jsonl"
+        if not tr.exists() or not hp.exists():
+            continue
+        hist = {}
+        for line in hp.read_text().splitlines():
+            try:
+                h = json.loads(line)
+                hist[h["id"]] = h
+            except Exception:
+                pass
+        cur, buf = None, {}
+        for line in tr.read_text().splitlines():
+            if line.startswith("H "):
+                cur = line.split()[1]
+                buf[cur] = []
+            elif cur:
+                buf[cur].append(line)
+        for hid, lines in buf.items():
+            h = hist.get(hid)
+            if not h:
+                continue
+            evs = parse_trace_events(lines)
+            if len(evs) != len(h["events"]):
+                continue
+            failed = [i for i, (e, o) in enumerate(evs) if _failed_at_once(e, o)]
+            # a deleted event must not be referenced later (failed requests return no usable key, but a KeyRef may name them)
+            failed = [i for i in failed if _refs_ok_after_delete(h["events"], i)]
+            if failed and len(cands) < max_twins:
+                cands.append((hid, h, evs, failed))
+    twins = []
+    for hid, h, evs, failed in cands:
+        t = copy.deepcopy(h)
+        for j in sorted(failed, reverse=True):
+            t["events"] = _delete_event(t["events"], j)
+        t["id"] = hid + "-twin"
+        twins.append(t)
+    n_diff, n_cmp, removed = 0, 0, 0
+    if twins:
+        rr = run_replay(ctx, b, twins, name="twins")
+        ttr = {}
+        for d in rr["dirs"]:
+            f = d / "trace.txt"
+            if not f.exists():
+                continue
+            cur = None
+            for line in f.read_text().splitlines():
+                if line.startswith("H "):
+                    cur = line.split()[1]
+                    ttr[cur] = []
+                elif cur:
+                    ttr[cur].append(line)
+        for hid, h, evs, failed in cands:
+            tl = ttr.get(hid + "-twin")
+            if tl is None:
+                continue
+            kept = [ev for i, ev in enumerate(evs) if i not in failed]
+            a, bb = canon_events(kept), canon_events(parse_trace_events(tl))
+            n_cmp += 1
+            removed += len(failed)
+            if a != bb:
+                n_diff += 1
+                first = next((i for i in range(min(len(a), len(bb))) if a[i] != bb[i]), min(len(a), len(bb)))
+                if n_diff <= 2:
+                    ctx.violation({"kind": "failed-request-not-inert", "property": ctx.prop, "history": h, "removed_failed_requests": failed,
+                                   "twin": [t for t in twins if t["id"] == hid + "-twin"][0],
+                                   "first_difference_at_kept_event": first,
+                                   "with_failed_requests": a[first] if first < len(a) else None,
+                                   "without_them": bb[first] if first < len(bb) else None,
+                                   "removed": [evs[i] for i in failed]},
+                                  "the same history with and without its failed requests %s behaves differently afterwards: a failed request is not inert (history %s)"
+                                  % ([evs[i][0].split()[0] for i in failed][:4], hid), name="twin_%s.json" % hid)
+    tie.update({"histories_with_failed_requests": len(cands), "twin_pairs_compared": n_cmp, "failed_requests_removed": removed,
+                "pairs_differing": n_diff,
+                "rule": "requests answered with an error at once (Lock/TryLock/Renew) are deleted from the history; the rest is re-executed on the real server; "
+                        "all other observations (responses, listing, file, lock table incl. lastAccessed, completion instants) must be equal up to renaming of uuids"})
+    ctx.coverage["evaluations"] = ctx.coverage.get("evaluations", 0) + 2 * n_cmp
